@@ -2,6 +2,8 @@ SPECIFICATION GSpec
 CONSTANTS
   Cap = 2
   MaxId = 8
+  Kinds = {"N", "Q", "A"}
+  BatchSizes = {3}
   Defects = {}
   Depth = 4
 CONSTRAINT Emit
